@@ -41,7 +41,9 @@ def _count_reported(c, st):
 
 def register(R):
     # ------------------------------------------------------------------ invoke_progress_callbacks
-    R.external('progress_cb', **{'()': ExtSpec(raises=('Exception',), user_code=True)})
+    # user code: may raise anything; OSError stands for the non-stream errors that are OSError subclasses
+    # (file-system faults), which a too-wide retry filter would swallow (C03)
+    R.external('progress_cb', **{'()': ExtSpec(raises=('Exception', 'OSError'), user_code=True)})
 
     def ipc_checks(c):
         tr = c.trace
@@ -59,7 +61,7 @@ def register(R):
     R.contract(
         f'{UT}:invoke_progress_callbacks', props=['C09'],
         params=dict(callbacks=ListOfT(ExtT('progress_cb')), bytes_transferred=Int),
-        checks=ipc_checks, raises={'Exception': lambda c: {}}, raise_when={'Exception': lambda c: None},
+        checks=ipc_checks, raises={'Exception': lambda c: {}}, raise_when={'Exception': lambda c: None, 'OSError': lambda c: None},
         loops={0: trivial_loop()},
         effects=_count_reported,
     )
